@@ -12,7 +12,8 @@ def run(chk):
     chk.mc('psd-lattice', 'MC_Psd', 'MC_Psd_q.cfg' if q else 'MC_Psd.cfg', workers=8)
     recs = core.run_driver('psd', tier=chk.tier, seed=chk.seed)
     chk.validate('psd', 'Trace_Psd', 'Trace_Psd.cfg', recs, driver='psd', jobs=14)
-    good = [r for r in recs if r['kind'] == 'psd' and r['exc'] == '' and r['oshape'][r['sd']] >= 2][0]
+    goods = [r for r in recs if r['kind'] == 'psd' and r['exc'] == '' and r['oshape'][r['sd']] >= 2]
+    good = goods[0]
 
     def corrupt(r):
         def first(o):
@@ -22,7 +23,7 @@ def run(chk):
         e = first(r['out'])
         e[0] = [e[0][0] + 1, e[0][1]]
         return r
-    core.binding_demo(chk, 'bind-value', 'Trace_Psd', 'Trace_Psd.cfg', good, corrupt, 'value')
+    core.binding_demo(chk, 'bind-value', 'Trace_Psd', 'Trace_Psd.cfg', good, corrupt, 'value', candidates=goods[1:])
     chk.exhaustive = False
     chk.assumptions = ['lattice inputs (Gaussian integers |re|,|im|<=3, masks 0..3 or boolean, optionally scaled); '
                        'outputs enter TLC by rational reconstruction (denominator <= 2^15, 1e-9 relative)']
